@@ -3,6 +3,8 @@
 // multi-indices; every arithmetic step is done in the element type T so that the result can be compared
 // BIT FOR BIT with the implementation.  Shares no code with nmtools.
 #pragma once
+#include <string>
+#include <cstdio>
 #include "nmc_enum.hpp"
 #include "nmc_ref.hpp"
 #include <cmath>
